@@ -129,9 +129,20 @@ func newRigLimit(ctx context.Context, ns string, ih bool, badLines float64) *rig
 
 // feed sends one datagram and waits until the parser is idle again. Returns "" or the panic text.
 func (r *rig) feed(ctx context.Context, msg []byte, ts int64) (done bool, panicked string) {
+	return r.feedBatch(ctx, msg, ts, false)
+}
+
+const markerName, markerIP = "zzbatchmarker", "192.0.2.77"
+
+// feedBatch: with marker, the datagram is the second of a batch of two; the first has its own receive time and sender
+func (r *rig) feedBatch(ctx context.Context, msg []byte, ts int64, marker bool) (done bool, panicked string) {
 	dg := &statsd.Datagram{IP: ip, Msg: msg, Timestamp: gostatsd.Nanotime(ts), DoneFunc: func() { done = true }}
+	batch := []*statsd.Datagram{dg}
+	if marker {
+		batch = []*statsd.Datagram{{IP: markerIP, Msg: []byte(markerName + ":1|c"), Timestamp: gostatsd.Nanotime(ts - 500_000), DoneFunc: func() {}}, dg}
+	}
 	select {
-	case r.in <- []*statsd.Datagram{dg}:
+	case r.in <- batch:
 	case p := <-r.panicCh:
 		return false, p
 	}
@@ -196,7 +207,8 @@ func TestCases(t *testing.T) {
 			}
 			msg := []byte(text)
 			ts := int64(1_000_000 + idx)
-			done, pan := r.feed(ctx, msg, ts)
+			marker := idx%2 == 1 // every other datagram arrives as the second of a batch of two
+			done, pan := r.feedBatch(ctx, msg, ts, marker)
 			res.Eval(len(c.Lines) >= 2)
 			distinct[text+fmt.Sprint(c.IH)] = true
 			if pan != "" {
@@ -216,6 +228,10 @@ func TestCases(t *testing.T) {
 			// --- counters
 			r.bad += float64(c.Bad)
 			r.metrics += float64(len(c.Metrics))
+			if marker {
+				r.metrics++
+				res.Hit("second-of-a-batch")
+			}
 			r.events += float64(len(c.Events))
 			if g, ok := r.st.GetGauge("parser.bad_lines_seen"); (ok && g != r.bad) || (!ok && r.bad != 0) {
 				fail("bad-line-count", "bad_lines_seen=%v want %v (this datagram: %d rejected lines)", g, r.bad, c.Bad)
@@ -253,7 +269,7 @@ func TestCases(t *testing.T) {
 			}
 			// --- the batch map
 			wantMaps := 0
-			if len(c.Metrics) > 0 {
+			if len(c.Metrics) > 0 || marker {
 				wantMaps = 1
 			}
 			if len(maps) != wantMaps {
@@ -263,6 +279,23 @@ func TestCases(t *testing.T) {
 				got := map[string]fakes.Series{}
 				for _, s := range fakes.Flatten(maps[0]) {
 					got[s.Key()] = s
+				}
+				if marker { // the other datagram of the batch keeps its own receive time and sender
+					mn := markerName
+					if ns != "" {
+						mn = ns + "." + mn
+					}
+					msrc := markerIP
+					if c.IH { // ignore-host: the source is the line's host: tag, and this line has none
+						msrc = ""
+					}
+					mk := "counter|" + mn + "||" + msrc
+					if g, ok := got[mk]; !ok {
+						fail("series-missing:marker", "the first datagram of the batch is missing; got %v", keys(got))
+					} else if g.TS != ts-500_000 {
+						fail("timestamp", "the first datagram of the batch has timestamp %d, want its own %d", g.TS, ts-500_000)
+					}
+					delete(got, mk)
 				}
 				for _, w := range c.Map {
 					name := cat(w.Name)
